@@ -69,6 +69,11 @@ def gen_case(rng, enum=None, small=False):
     w = {"kind": rng.choice(["uniform", "random", "random", "skewed", "ties"]), "seed": rng.randrange(10 ** 6)}
     if g["kind"] == "cfg":
         g["rule_order"] = rng.choice(["asis", "asis", "reversed", "shuffled"])
+        if enum != "bs" and rng.random() < 0.2:
+            # the cost spread sits on the deepest non-terminals only, rule table not stored parents-first
+            w["kind"] = "deep_spread"
+            g["rule_order"] = rng.choice(["reversed", "shuffled"])
+            g["max_depth"] = max(3, g["max_depth"])
     params = {}
     if enum == "hs_bucket":
         params["bucket_size"] = rng.choice([2, 3, 5, 8])
